@@ -142,7 +142,18 @@ class Ctx:
         t = time.time()
         p = subprocess.run(cmd, cwd=self.work, env=e, capture_output=True, text=True, timeout=timeout)
         if p.returncode != 0:
-            raise MachineryError("driver %s failed rc=%d\n%s\n%s" % (driver, p.returncode, p.stdout[-3000:], p.stderr[-6000:]))
+            # an exception raised INSIDE felupe on a spec-issued case is a finding about felupe (the public API must return a value
+            # on every valid case), not a failure of the machinery: report it (clause NoException) and judge the records written so far
+            frames = re.findall(r'File "([^"]+)", line (\d+), in (\S+)', p.stderr)
+            last = frames[-1] if frames else None
+            lib = os.environ.get("VERIF_REPO_SRC") or "/repo/src"
+            if last and (last[0].startswith(lib) or "/felupe/" in last[0]) and "/verif/harness" not in last[0]:
+                err = (p.stderr.strip().splitlines() or ["?"])[-1][:200]
+                self.failures.append({"id": "%s:exception@%s:%s" % (name, os.path.basename(last[0]), last[1]), "clause": "NoException",
+                                      "module": driver, "detail": err})
+                self.extra.setdefault("driver_exceptions", []).append(err)
+            else:
+                raise MachineryError("driver %s failed rc=%d\n%s\n%s" % (driver, p.returncode, p.stdout[-3000:], p.stderr[-6000:]))
         self.extra.setdefault("driver_wall_s", {})[name] = round(time.time() - t, 2)
         shards = sorted(glob.glob(prefix + "*.ndjson"))
         shards = [s for s in shards if os.path.getsize(s) > 0]
